@@ -136,9 +136,14 @@ func VHBinaryTable() {
 	e := &tree.Expression{Operator: &opc, LeftOperand: &tree.Expression{Value: l}, RightOperand: &tree.Expression{Value: r}}
 	store := variable.NewInMemoryStorer()
 	fs := &vProbeCaller{}
+	want := vSpecBinary(op, l, r) // computed before the evaluation, from the operands as written
+	l0, r0 := vCopyValue(l), vCopyValue(r)
 	got, err := evaluateExpression(e, store, fs)
 	vReach("evaluated")
-	vCheckAgainstSpec(got, err, vSpecBinary(op, l, r), "binary")
+	vCheckAgainstSpec(got, err, want, "binary")
+	vAssert(vValueEq(*l, l0) && vValueEq(*r, r0), "evaluating an expression does not change its operands (the script is not rewritten)")
+	got2, err2 := evaluateExpression(e, store, fs)
+	vCheckAgainstSpec(got2, err2, want, "binary, evaluated again")
 	if 0 <= op && op <= tree.XorBinaryOperator {
 		vReach("known-operator")
 	} else {
@@ -153,19 +158,29 @@ func VHUnary() {
 	v := vArbValue("v", k, 2)
 	store := variable.NewInMemoryStorer()
 	fs := &vProbeCaller{}
-	neg, err := evaluateExpression(&tree.Expression{NegativeExpression: &tree.Expression{Value: v}}, store, fs)
+	v0 := vCopyValue(v)
+	negExpr := &tree.Expression{NegativeExpression: &tree.Expression{Value: v}}
+	notExpr := &tree.Expression{NotExpression: &tree.Expression{Value: v}}
+	for round := 0; round < 2; round++ { // the same parsed expression is evaluated every time its statement runs
+		vUnaryOnce(negExpr, notExpr, v, k, store, fs)
+		vAssert(vValueEq(*v, v0), "evaluating a unary expression does not change its operand")
+	}
+	vReach("unary")
+}
+
+func vUnaryOnce(negExpr, notExpr *tree.Expression, v *variable.Value, k int, store *variable.InMemoryStorer, fs *vProbeCaller) {
+	neg, err := evaluateExpression(negExpr, store, fs)
 	vAssert(!(neg == nil && err == nil), "neg: value or error")
 	vAssert((err != nil) == (k != 0), "unary minus errs exactly on non-numbers")
 	if err == nil {
 		vAssert(vKind(neg) == 0 && vSameFloat(*neg.Number, -*v.Number), "unary minus negates")
 	}
-	not, err := evaluateExpression(&tree.Expression{NotExpression: &tree.Expression{Value: v}}, store, fs)
+	not, err := evaluateExpression(notExpr, store, fs)
 	vAssert(!(not == nil && err == nil), "not: value or error")
 	vAssert((err != nil) == (k != 1), "not errs exactly on non-booleans")
 	if err == nil {
 		vAssert(vKind(not) == 1 && *not.Boolean == !*v.Boolean, "not negates")
 	}
-	vReach("unary")
 }
 
 // ---- evaluation order ----
